@@ -194,6 +194,7 @@ func (n *Node) RemoveInterface(interfaceNumber int) error {
 		newInterfaces = append(newInterfaces, tmpInt)
 	}
 
+	n.interfaces = newInterfaces
 	n.interfaceCount--
 
 	return nil
